@@ -160,7 +160,7 @@ def run(ctx: Ctx, tier: str) -> Result:
     want = "deep.api.attributes._clean_attribute(%s, %s, @self.max_value_len)" % (k_, v_)
     want2 = want.replace(v_ + ",", "<loop:%s>," % v_[1:])
     others = [x for x in sv if x != v_]
-    if others and all(x in (want, want2) for x in others) and any(c.endswith("is not None") and pol for c, pol in conds):
+    if others and all(x in (want, want2) for x in others) and any((c.endswith("is not None") and pol) or (c.endswith(" is None") and not pol) for c, pol in conds):
         res.ok("C18.CLEAN", {"stored value": want, "only when": "not None"})
     else:
         res.fail(Finding("C18.CLEAN", si.qname, stores[0], si.loc(stores[0]), "the stored value is not the non-None result of _clean_attribute(key, value, max_value_len): %s under %s" % (sv, conds)))
